@@ -239,8 +239,8 @@ type env struct {
 	// idxCreator: for every committed index, the commit that created it
 	idxCreator map[string]commitRec
 	inf        info
-	clock  int
-	trace  []string
+	clock      int
+	trace      []string
 	// failedObjs: per document, the object of the latest collection-API update whose transaction was discarded or
 	// failed to commit; reuseDoc: the object the running step passes again instead of fetching the document
 	failedObjs map[int]stashedDoc
@@ -253,10 +253,10 @@ func (e *env) label(l string) { e.inf.labels[l] = true }
 
 // Signatures of the listed findings that have a generator switch (see known_findings.d/C06.json).
 const (
-	sigCreateUniqueKeepsDoc  = "C06/failed-op-partial-effect/create-unique-violation-keeps-document"
-	sigUpdateUniqueLosesKey  = "C06/failed-op-partial-effect/update-unique-violation-loses-index-entry"
-	sigDeleteMissingDocPanic = "C06/panic/collection.Delete-of-missing-document-with-index"
-	sigIndexMissesConcurrent = "C06/index-ddl-vs-concurrent-writer/index-misses-document"
+	sigCreateUniqueKeepsDoc   = "C06/failed-op-partial-effect/create-unique-violation-keeps-document"
+	sigUpdateUniqueLosesKey   = "C06/failed-op-partial-effect/update-unique-violation-loses-index-entry"
+	sigDeleteMissingDocPanic  = "C06/panic/collection.Delete-of-missing-document-with-index"
+	sigIndexMissesConcurrent  = "C06/index-ddl-vs-concurrent-writer/index-misses-document"
 	sigFailedMkindexKeepsDesc = "C06/failed-op-partial-effect/create-unique-index-violation-keeps-index-description"
 )
 
